@@ -12,9 +12,14 @@ mod ivl;
 mod prog;
 mod rdfa;
 mod runner;
+mod rx;
 mod smtref;
 mod tape;
 
+mod p_c01;
+mod p_c02;
+mod p_c03;
+mod p_c05;
 mod p_c06;
 mod p_c08;
 mod p_c09;
@@ -35,6 +40,12 @@ pub struct Prop {
 
 fn registry() -> Vec<Prop> {
     vec![
+        Prop { id: "C01", run: p_c01::run, tape_len: 150, enumerate: None },
+        Prop { id: "C02", run: p_c02::run, tape_len: 150, enumerate: None },
+        Prop { id: "C03", run: p_c03::run, tape_len: 150, enumerate: None },
+        Prop { id: "C05", run: p_c05::run_c05, tape_len: 120, enumerate: None },
+        Prop { id: "C18", run: p_c05::run_c18, tape_len: 120, enumerate: None },
+        Prop { id: "C19", run: p_c05::run_c19, tape_len: 120, enumerate: None },
         Prop { id: "C06", run: p_c06::run, tape_len: 64, enumerate: Some(p_c06::enumerate) },
         Prop { id: "C08", run: p_c08::run, tape_len: 96, enumerate: Some(p_c08::enumerate) },
         Prop { id: "C09", run: p_c09::run, tape_len: 96, enumerate: Some(p_c09::enumerate) },
